@@ -42,7 +42,11 @@ func (l *List) MultiUse(st funcGen.Stack[Value]) (Map, error) {
 			pr := prList[i]
 			go mu.runConsumer(pr, done, st)
 		}
-		err := run(l.iterable(st))
+		// A panic raised while the list produces its elements (e.g. the stack
+		// limit hit in a closure of an upstream stage) must not unwind run: the
+		// consumers would wait for their next element forever. It is handed to
+		// them as the error of a final element instead.
+		err := run(recoverInProducer(l.iterable(st)))
 
 		if err != nil {
 			return EmptyMap, err
